@@ -69,7 +69,7 @@ def gen(seed: int, tier: str) -> dict[str, Any]:
     if not clean:
         for _ in range(rng.choice([0, 1, 3, 6])):
             inj.append({"t": round(rng.uniform(0.0, 8.0), 6), "src": rng.choice(["dev0", "dev0", "stranger"]),
-                        "k": rng.choice(["ack", "nak", "data", "data_prev", "disconnect", "connect", "data_far"]),
+                        "k": rng.choice(["ack", "nak", "data", "data_prev", "disconnect", "connect", "data_far", "individual"]),
                         "n": rng.randrange(16)})
     return {"seed": seed, "tier": "S", "config": {"batch": 1, "con_lost": (not clean) and rng.random() < 0.15,
                                                    "rate_limit": rng.choice([0, 20]),
@@ -171,7 +171,9 @@ def run(plan: dict[str, Any]) -> dict[str, Any]:
             tpdu = {"ack": bytes((0xC2 | n << 2,)), "nak": bytes((0xC3 | n << 2,)),
                     "data": bytes((0x43 | n << 2, 0x40, 0x07, 0xB0)), "data_prev": bytes((0x43 | n << 2, 0x40, 0x07, 0xB0)),
                     "data_far": bytes((0x43 | n << 2, 0xD2, 0x01)),
-                    "disconnect": bytes((0x81,)), "connect": bytes((0x80,))}[inj["k"]]
+                    "disconnect": bytes((0x81,)), "connect": bytes((0x80,)),
+                    # connection-less data of the (connected) peer: carries no sequence number at all
+                    "individual": bytes((0x03, 0x40, 0x07, 0xB0))}[inj["k"]]
             loop.at(t0 + inj["t"], (lambda s=src, tp=tpdu: bus.inject(s, OWN, tp)), label="inject")
             R.extra_faults["inject_" + inj["k"] + ("_stranger" if inj["src"] != "dev0" else "")] += 1
         by_dev: dict[int, list] = {}
@@ -223,10 +225,9 @@ def run(plan: dict[str, Any]) -> dict[str, Any]:
                and type(tg.tpci).__name__ not in ("TDataConnected", "TAck", "TNak", "TDisconnect")]
         for r in [x for x in results if x["d"] == di and x["kind"] != "connect"]:
             if any(n < r["n_ret"] for n in odd):
-                # the connected peer sent a T_Connect / unnumbered frame inside the connection: outside the statement's frame
-                # classes, and what it does to the numbering is unspecified - numbers are not judged from here on
-                R.probes["numbering_unjudged_after_unnumbered_frame_of_connected_peer"] += 1
-                break
+                # the connected peer sent a T_Connect / connection-less frame inside the connection: such a frame carries no
+                # sequence number and answers nothing (judged like any other frame since fix of P2PConnection.process)
+                R.probes["unnumbered_frame_of_connected_peer_inside_connection"] += 1
             sent_n = next((e[0] for e in ev if r["n_call"] < e[0] < r["n_ret"] and _is_data_handoff(e, DEV[di])), None)
             taken = None
             if sent_n is not None:
